@@ -51,7 +51,17 @@ def scratch():
     """Per-process scratch directory under $TMPDIR, removed at exit by the check CLI."""
     global _scratch_root
     if _scratch_root is None:
-        _scratch_root = tempfile.mkdtemp(prefix='petlverif_')
+        base = os.environ.get('VERIF_TMP')
+        if not base:
+            # a memory-backed file system if there is one with room: the replays create and unlink chunk files by the
+            # thousand per second; otherwise the default temp directory
+            try:
+                st = os.statvfs('/dev/shm')
+                if os.access('/dev/shm', os.W_OK) and st.f_bavail * st.f_frsize > 4 * 2 ** 30:
+                    base = '/dev/shm'
+            except OSError:
+                base = None
+        _scratch_root = tempfile.mkdtemp(prefix='petlverif_', dir=base or None)
     return _scratch_root
 
 
